@@ -325,6 +325,7 @@ class Unit:
         item = X.assert_eq_rule(item, log)
         if any(d.kind == 'r7' for d in blk.dirs):
             item = X.split_or_patterns(item, log)
+        extra_caps = {}
         for d in blk.dirs:
             if d.kind == 'rw':
                 args = d.arg.split()
@@ -339,8 +340,10 @@ class Unit:
                     else:
                         name = a
                 item = X.rewrite(item, d.text(), d.with_text(self.templates), count, d.line, log, name, nth=nth)
+            elif d.kind == 'capture':
+                extra_caps.update(X.capture_only(item, d.text(), d.line, log, (d.arg.split() or ['R15'])[0]))
             elif d.kind == 'slice':
-                item = X.slice_item(item, d.text(), d.with_text(self.templates), d.line, log, (d.arg.split() or ['R15'])[0])
+                item = X.slice_item(item, d.text(), d.with_text(self.templates), d.line, log, (d.arg.split() or ['R15'])[0], extra_caps)
         kind = blk.path.split(' :: ')[-1].split()[0]
         contracted = False
         if kind == 'fn':
